@@ -2134,7 +2134,8 @@ def c23_regionkey(R):
     tree = R.tree
     m = tree.mod(VS)
     n = 0
-    for q, fn in m.functions.items():
+    for q, fn0 in m.functions.items():
+        fn = util.resolve_locals(fn0)  # `key = region; a.regions[key] op si` reads as `a.regions[region] op si`
         # loop / comprehension variables over `<recv>.regions.items()`: value variable -> (receiver, key variable)
         loopvals = {}
         for lp in (x for x in ast.walk(fn) if isinstance(x, (ast.For, ast.comprehension))):
@@ -2219,6 +2220,16 @@ def c23_emptymerge(R):
                     arms.append(st.orelse)
                 elif t in (f"type({b}) is not ValueSet", f"not isinstance({b}, ValueSet)"):
                     arms.append(st.body)
+        if len(arms) == 1 and not arms[0]:
+            # guard-clause form: `if type(b) is ValueSet: ...; return ..` followed by the statements for the other case
+            for st in walk_no_nested(fn):
+                if isinstance(st, ast.If) and (st.orelse is arms[0] or st.body is arms[0]):
+                    taken = st.body if st.orelse is arms[0] else st.orelse
+                    blk = getattr(st, "_parent", None)
+                    for fld in ("body", "orelse", "finalbody"):
+                        seq = getattr(blk, fld, None)
+                        if isinstance(seq, list) and st in seq and taken and isinstance(taken[-1], (ast.Return, ast.Raise)):
+                            arms = [seq[seq.index(st) + 1 :]]
         R.need(len(arms) == 1 and arms[0], f"ValueSet.{name}: the arm for an operand that is not a ValueSet was not found")
         n += 1
         outside = []
